@@ -66,6 +66,10 @@ func p7LibSeeds() []p7Seed {
 		seeds = append(seeds, p7Seed{Name: fmt.Sprintf("lib-detached-data-k%d", kn), Blob: b, Signer: keys.C(kn), Key: keys.K(kn), Wrong: keys.C(2), SameName: samePlate(keys.C(kn)),
 			Detached: content, HasAttrs: true, Producer: "library"})
 	}
+	if b, err := pkcs7.SignPKCS7(keys.K(1), keys.Leaf(1), pkcs7.OIDData, content); err == nil {
+		seeds = append(seeds, p7Seed{Name: "lib-detached-data-leaf-k1", Blob: b, Signer: keys.Leaf(1), Key: keys.K(1), Wrong: keys.C(2), SameName: samePlate(keys.Leaf(1)),
+			Detached: content, HasAttrs: true, Producer: "library"})
+	}
 	img := []byte("pretend image stream hashed by authenticode")
 	b, err := authenticode.SignAuthenticode(keys.K(1), keys.C(1), bytes.NewReader(img), crypto.SHA256)
 	if err != nil {
@@ -489,6 +493,70 @@ func p7Edits(s p7Seed) []p7Edit {
 		t.signers.Children = append([]*der.Node{n}, t.signers.Children...)
 		return true
 	})
+	// multi-signer forgeries: the content is replaced and ANOTHER signer entry vouches for it
+	setDigest := func(attrs *der.Node, d []byte) {
+		for _, a := range attrs.Children {
+			if len(a.Children) == 2 && bytes.Equal(a.Children[0].Val, refp7.OIDMessageDigest) && len(a.Children[1].Children) == 1 {
+				a.Children[1].Children[0].Val = d
+			}
+		}
+	}
+	for _, first := range []bool{true, false} {
+		first := first
+		pos := "last"
+		if first {
+			pos = "first"
+		}
+		add("content replaced; a second signer (another key, validly signed over the new content) placed "+pos, func(t *p7Tree) bool {
+			if t.attrs == nil || len(t.ci.Children) != 2 {
+				return false
+			}
+			flipLeaf(t.ci.Children[1].Children[0])
+			nd := sha256Of(t.ci.Children[1].Children[0].Content())
+			n := t.si.Clone()
+			n.Children[1].Children[0] = c2issuer.Clone()
+			n.Children[1].Children[1].Val = serialBytes(c2.SerialNumber)
+			var nattrs *der.Node
+			for _, ch := range n.Children {
+				if ch.Tag == 0xa0 {
+					nattrs = ch
+				}
+			}
+			setDigest(nattrs, nd)
+			for j, ch := range n.Children {
+				if ch.Tag == 0x04 {
+					n.Children[j].Val = signAttrs(keys.K(2), nattrs)
+				}
+			}
+			if first {
+				t.signers.Children = append([]*der.Node{n}, t.signers.Children...)
+			} else {
+				t.signers.Children = append(t.signers.Children, n)
+			}
+			return true
+		})
+		add("content replaced; a decoy signer entry (other serial, garbage signature) carrying the new digest placed "+pos, func(t *p7Tree) bool {
+			if t.attrs == nil || len(t.ci.Children) != 2 {
+				return false
+			}
+			flipLeaf(t.ci.Children[1].Children[0])
+			nd := sha256Of(t.ci.Children[1].Children[0].Content())
+			n := t.si.Clone()
+			sv := n.Children[1].Children[1].Val
+			sv[len(sv)-1] ^= 0x5a
+			for _, ch := range n.Children {
+				if ch.Tag == 0xa0 {
+					setDigest(ch, nd)
+				}
+			}
+			if first {
+				t.signers.Children = append([]*der.Node{n}, t.signers.Children...)
+			} else {
+				t.signers.Children = append(t.signers.Children, n)
+			}
+			return true
+		})
+	}
 	add("no SignerInfo", func(t *p7Tree) bool {
 		t.signers.Children = nil
 		return true
@@ -577,3 +645,8 @@ func serialBytes(v *big.Int) []byte {
 }
 
 var _ = pkix.Name{}
+
+func sha256Of(b []byte) []byte {
+	h := sha256.Sum256(b)
+	return h[:]
+}
